@@ -80,8 +80,12 @@ open Penguin.Mux in
 /-- `Link.step (.write d)` is `appWrite` on the object the handle refers to. -/
 theorem link_write_is_appWrite (e : EP) (h i : Nat) (o : Obj) (d : Bytes)
     (hh : e.handles[h]? = some i) (ho : e.objs[i]? = some o) :
-    (o.finishSent = true → appWrite e h d = (e, .brokenPipe)) ∧
-    (o.finishSent = false → d = [] → appWrite e h d = (e, .wrote 0)) ∧
+    (o.finishSent = true →
+        (appWrite e h d).2 = .brokenPipe ∧ (appWrite e h d).1.outq = e.outq ∧
+        (appWrite e h d).1.objs[i]? = some { o with parked := false }) ∧
+    (o.finishSent = false → d = [] →
+        (appWrite e h d).2 = .wrote 0 ∧ (appWrite e h d).1.outq = e.outq ∧
+        (appWrite e h d).1.objs[i]? = some { o with parked := false }) ∧
     (o.finishSent = false → d ≠ [] → o.credit = 0 →
         (appWrite e h d).2 = .pending ∧ (appWrite e h d).1.outq = e.outq ∧
         (appWrite e h d).1.objs[i]? = some { o with parked := true, woken := false }) ∧
